@@ -1,0 +1,117 @@
+//go:build verif
+
+// Package vspec holds the ghost vocabulary used by the //@ contract blocks,
+// spec functions and lemmas that live in the zz_*_verif.go files of this
+// module. It is only compiled with the build tag "verif"; production builds
+// never see it. Every function here is executable, so lemmas and contract
+// clauses can be replayed on concrete values.
+package vspec
+
+import "unsafe"
+
+// Vassert states a proof obligation inside a lemma.
+func Vassert(b bool) {
+	if !b {
+		panic("vspec: Vassert failed")
+	}
+}
+
+// AssumeFailed is the panic value of a failed Vassume (the replay harness
+// treats it as "input outside the lemma's hypothesis").
+type AssumeFailed struct{}
+
+// Vassume restricts a lemma to the states in which b holds.
+func Vassume(b bool) {
+	if !b {
+		panic(AssumeFailed{})
+	}
+}
+
+// Old marks an expression of a postcondition or invariant that is evaluated
+// in the state at function entry. (Executed concretely it is the identity;
+// the replay harness snapshots old values itself.)
+func Old[T any](x T) T { return x }
+
+func Old2[A, B any](a A, b B) (A, B) { return a, b }
+
+func Old3[A, B, C any](a A, b B, c C) (A, B, C) { return a, b, c }
+
+// Forall is the bounded universal quantifier lo <= i < hi.
+func Forall(lo, hi int, f func(i int) bool) bool {
+	for i := lo; i < hi; i++ {
+		if !f(i) {
+			return false
+		}
+	}
+	return true
+}
+
+// Exists is the bounded existential quantifier lo <= i < hi.
+func Exists(lo, hi int, f func(i int) bool) bool {
+	for i := lo; i < hi; i++ {
+		if f(i) {
+			return true
+		}
+	}
+	return false
+}
+
+// Fresh states that x (a slice or pointer) was allocated during the call.
+// It has no executable meaning.
+func Fresh[T any](x T) bool { return true }
+
+// SameSlice states that a and b are the same slice header (array, offset, length).
+func SameSlice[T any](a, b []T) bool {
+	if len(a) != len(b) {
+		return false
+	}
+	if len(a) == 0 {
+		return true
+	}
+	return &a[0] == &b[0]
+}
+
+// Extends states that res is b grown in place: same backing array, offset
+// and capacity, at least b's length.
+func Extends[T any](res, b []T) bool {
+	if cap(res) != cap(b) || len(res) < len(b) {
+		return false
+	}
+	if cap(b) == 0 {
+		return true
+	}
+	return &res[:1][0] == &b[:1][0]
+}
+
+// SpareDisjoint states that v does not overlap the spare capacity of b (the
+// elements between len(b) and cap(b)), so appending to b cannot change v.
+func SpareDisjoint[T any](b, v []T) bool {
+	if cap(b) == len(b) || len(v) == 0 {
+		return true
+	}
+	var z T
+	sz := unsafe.Sizeof(z)
+	if sz == 0 {
+		return true
+	}
+	lo := uintptr(unsafe.Pointer(unsafe.SliceData(b))) + uintptr(len(b))*sz
+	hi := uintptr(unsafe.Pointer(unsafe.SliceData(b))) + uintptr(cap(b))*sz
+	vlo := uintptr(unsafe.Pointer(unsafe.SliceData(v)))
+	vhi := vlo + uintptr(len(v))*sz
+	return vhi <= lo || hi <= vlo
+}
+
+// Frame vocabulary (only meaningful to the verifier).
+func AssignsAt[T any](p *T)             {}
+func AssignsElems[T any](s []T)         {}
+func AssignsSpare[T any](s []T)         {}
+func AssignsGhost(name string, obj any) {}
+
+// B1 is the one-byte string holding x.
+func B1(x byte) string { return string([]byte{x}) }
+
+// U16 is the two-byte big-endian string of x.
+func U16(x uint16) string { return string([]byte{byte(x >> 8), byte(x)}) }
+
+// Zeros is the string of n zero bytes.
+func Zeros(n int) string { return string(make([]byte, n)) }
